@@ -401,3 +401,285 @@ Section Lower.
         lower_ty pm' value
     end.
 
+  (** [TraitRef::lower]: the bound (arguments without self) first, then the self type. *)
+  Definition lower_trait_ref (pm : pmap) (tr : ident) (self : ty) (args : list garg) : out N :=
+    h <- trait_bound_head pm tr ;;
+    tks <- mapM (lower_garg pm) args ;;
+    trait_bound_check (snd h) tks ;;;
+    lower_ty pm self ;;;
+    Ok (fst h).
+
+  Definition lower_proj (pm : pmap) (tr : ident) (self : ty) (targs : list garg) (name : ident) (args : list garg) : out unit :=
+    i <- lower_trait_ref pm tr self targs ;;
+    aks <- lookup_associated_ty i name ;;
+    actual <- mapM (lower_garg pm) args ;;
+    assoc_check aks actual.
+
+  Definition lower_wc (pm : pmap) (w : wc) : out unit :=
+    match w with
+    | WImpl tr self args => lower_trait_ref pm tr self args ;;; Ok tt
+    | WProjEq tr self targs name args t =>
+        lower_proj pm tr self targs name args ;;;
+        lower_ty pm t ;;;
+        lower_trait_ref pm tr self targs ;;; Ok tt
+    | WLtOut a b => lower_lifetime pm a ;;; lower_lifetime pm b
+    | WTyOut t l => lower_ty pm t ;;; lower_lifetime pm l
+    end.
+
+  Definition lower_qwc (pm : pmap) (q : qwc) : out unit :=
+    pm' <- introduce pm (fst q) ;; lower_wc pm' (snd q).
+  Definition lower_qwcs (pm : pmap) (l : list qwc) : out unit := iterM (lower_qwc pm) l.
+
+  Definition lower_dgoal (pm : pmap) (d : dgoal) : out unit :=
+    match d with
+    | DHolds w => lower_wc pm w
+    | DNormalize tr self targs name args t => lower_proj pm tr self targs name args ;;; lower_ty pm t
+    | DTy t => lower_ty pm t
+    | DTraitRef tr self args => lower_trait_ref pm tr self args ;;; Ok tt
+    | DTrivial => Ok tt
+    | DObjectSafe n => lookup_trait pm n ;;; Ok tt
+    end.
+
+  (** evaluation from the last element to the first ([.map(lower).rev()] in [Clause::lower]) *)
+  Definition iterM_rev {A} (f : A -> out unit) : list A -> out unit :=
+    fix go l := match l with [] => Ok tt | x :: r => go r ;;; f x end.
+
+  Fixpoint lower_goal (pm : pmap) (gl : goal) {struct gl} : out unit :=
+    match gl with
+    | GQuant vks g' => pm' <- introduce pm vks ;; lower_goal pm' g'
+    | GImplies hyp g' => iterM (lower_clause pm) hyp ;;; lower_goal pm g'
+    | GAnd g1 gs => lower_goal pm g1 ;;; iterM (lower_goal pm) gs
+    | GWrap g' => lower_goal pm g'
+    | GLeaf d => lower_dgoal pm d
+    | GUnify a b => lower_garg pm a ;;; lower_garg pm b ;;; Ok tt
+    | GSubtype a b => lower_ty pm a ;;; lower_ty pm b
+    end
+  with lower_clause (pm : pmap) (cl : clause) {struct cl} : out unit :=
+    match cl with
+    | Clause vks conseq conds =>
+        pm' <- introduce pm vks ;;
+        lower_dgoal pm' conseq ;;;
+        iterM_rev (lower_goal pm') conds
+    end.
+
+  (* ----------------------------------------------------------------------------------- *)
+  (** *** Items ([ProgramLowerer::lower]) *)
+
+  Definition is_nil {A} (l : list A) : bool := match l with [] => true | _ => false end.
+  Definition when (b : bool) (e : err) : out unit := if b then Err e else Ok tt.
+  Definition guard (b : bool) (s : site) : out unit := if b then Ok tt else Panic s.
+
+  Definition variance_check (v : option nat) (n : nat) : out unit :=
+    match v with
+    | Some k => when (negb (Nat.eqb k n)) IncorrectNumberOfVarianceParameters
+    | None => Ok tt
+    end.
+
+  Definition self_param : vk := (KTy, id_Self).
+  Definition fixme_self : vk := (KTy, id_FixmeSelf).
+
+  Definition lower_item (i : N) (it : item) : out unit :=
+    match it with
+    | IAdt name vks fundamental variances variants wcs repr_int =>
+        when (fundamental && is_nil vks) InvalidFundamentalTypesParameters ;;;
+        pm <- introduce [] vks ;;
+        iterM (iterM (lower_ty pm)) variants ;;;
+        lower_qwcs pm wcs ;;;
+        match repr_int with Some t => lower_ty [] t | None => Ok tt end ;;;
+        variance_check variances (length vks)
+    | IFn name vks wcs args ret abi_ok variances =>
+        pm <- introduce [] vks ;;
+        lower_qwcs pm wcs ;;;
+        collect_then (iterM (lower_ty pm) args) (lower_ty pm ret) ;;;
+        sig_abi abi_ok ;;;
+        variance_check variances (length vks)
+    | IClosure name vks args ret upvars =>
+        pm <- introduce [] vks ;;
+        collect_then (iterM (lower_ty pm) args) (lower_ty pm ret) ;;;
+        iterM (lower_ty pm) upvars
+    | ITrait name vks auto wcs assocs =>
+        let ps := self_param :: vks in
+        pm <- introduce [] ps ;;
+        when (auto && negb (is_nil vks)) AutoTraitParameters ;;;
+        when (auto && negb (is_nil wcs)) AutoTraitWhereClauses ;;;
+        lower_qwcs pm wcs ;;;
+        iterM (fun ad => guard (has pair_eqb (i, ad.(ad_name)) g.(assoc_lookups)) S_trait_assoc_unwrap) assocs ;;;
+        iterM (fun ad =>
+                 guard (has pair_eqb (i, ad.(ad_name)) g.(assoc_lookups)) S_assoc_lookup_trait ;;;
+                 pm' <- introduce [] (ps ++ ad.(ad_vks)) ;;
+                 lower_bounds pm' ad.(ad_bounds) (map (lower_qib pm') ad.(ad_bounds)) ;;;
+                 lower_qwcs pm' ad.(ad_wcs)) assocs
+    | IOpaque name vks bounds wcs hidden =>
+        if has N.eqb name g.(opaque_ids) then
+          pm <- introduce [] vks ;;
+          lower_ty pm hidden ;;;
+          pm1 <- introduce pm [fixme_self] ;;
+          lower_bounds pm1 bounds (map (lower_qib pm1) bounds) ;;;
+          lower_qwcs pm1 wcs
+        else Ok tt
+    | ICoroutine name vks upvars resume yield ret wlts wtys =>
+        pm <- introduce [] vks ;;
+        lower_ty pm yield ;;; lower_ty pm resume ;;; lower_ty pm ret ;;;
+        iterM (lower_ty pm) upvars ;;;
+        pm' <- introduce pm (map (fun n => (KLt, n)) wlts) ;;
+        iterM (lower_ty pm') wtys ;;;
+        guard (has N.eqb name g.(coroutine_ids)) S_coroutine_id
+    | IImpl vks positive tr self args wcs atvs =>
+        pm <- introduce [] vks ;;
+        tid <- lower_trait_ref pm tr self args ;;
+        when (negb positive && negb (is_nil atvs)) NegativeImplAssociatedValues ;;;
+        lower_qwcs pm wcs ;;;
+        iterM (fun a => guard (has pair_eqb (i, a.(av_name)) g.(atv_ids)) S_impl_atv_ids) atvs ;;;
+        iterM (fun a =>
+                 guard (has pair_eqb (i, a.(av_name)) g.(atv_ids)) S_atv_id ;;;
+                 (if has pair_eqb (tid, a.(av_name)) g.(assoc_lookups) then Ok tt
+                  else if c.(fix_F9) then Err MissingAssociatedType else Panic S_assoc_lookup_impl) ;;;
+                 pm' <- introduce [] (vks ++ a.(av_vks)) ;;
+                 lower_ty pm' a.(av_ty)) atvs
+    | IClause cl => lower_clause [] cl
+    | IForeign _ => Ok tt
+    end.
+
+  Fixpoint lower_items (i : N) (items : list item) : out unit :=
+    match items with
+    | [] => Ok tt
+    | it :: r => lower_item i it ;;; lower_items (N.succ i) r
+    end.
+
+End Lower.
+
+(* ------------------------------------------------------------------------------------- *)
+(** ** The two extraction passes and the whole lowering *)
+
+Definition kinds_of (vks : list vk) : list kind := map fst vks.
+
+(** [extract_associated_types]: the only pass-1 error is an auto trait with associated types. *)
+Definition set_assoc (g : genv) (al : list ((N * ident) * list kind)) (av : list ((N * ident) * unit)) : genv :=
+  {| adt_ids := g.(adt_ids); adt_kinds := g.(adt_kinds); fn_ids := g.(fn_ids); fn_kinds := g.(fn_kinds);
+     closure_ids := g.(closure_ids); closure_kinds := g.(closure_kinds); opaque_ids := g.(opaque_ids);
+     opaque_kinds := g.(opaque_kinds); coroutine_ids := g.(coroutine_ids); coroutine_kinds := g.(coroutine_kinds);
+     trait_ids := g.(trait_ids); trait_kinds := g.(trait_kinds); auto_traits := g.(auto_traits);
+     foreign_ids := g.(foreign_ids); assoc_lookups := al; atv_ids := av |}.
+
+Definition extract_assoc_one (i : N) (it : item) (g : genv) : out genv :=
+  match it with
+  | ITrait name vks auto wcs assocs =>
+      if (auto && negb (is_nil assocs))%bool then Err AutoTraitAssociatedTypes
+      else Ok (set_assoc g (fold_left (fun acc ad => ((i, ad.(ad_name)), kinds_of ad.(ad_vks)) :: acc) assocs g.(assoc_lookups)) g.(atv_ids))
+  | IImpl vks positive tr self args wcs atvs =>
+      Ok (set_assoc g g.(assoc_lookups) (fold_left (fun acc a => ((i, a.(av_name)), tt) :: acc) atvs g.(atv_ids)))
+  | _ => Ok g
+  end.
+
+Fixpoint extract_assoc (i : N) (items : list item) (g : genv) : out genv :=
+  match items with
+  | [] => Ok g
+  | it :: r => g' <- extract_assoc_one i it g ;; extract_assoc (N.succ i) r g'
+  end.
+
+(** [extract_ids] never fails. *)
+Definition extract_ids_one (i : N) (it : item) (g : genv) : genv :=
+  let al := g.(assoc_lookups) in let av := g.(atv_ids) in
+  match it with
+  | IAdt name vks _ _ _ _ _ =>
+      {| adt_ids := (name, i) :: g.(adt_ids); adt_kinds := (i, kinds_of vks) :: g.(adt_kinds);
+         fn_ids := g.(fn_ids); fn_kinds := g.(fn_kinds); closure_ids := g.(closure_ids); closure_kinds := g.(closure_kinds);
+         opaque_ids := g.(opaque_ids); opaque_kinds := g.(opaque_kinds); coroutine_ids := g.(coroutine_ids);
+         coroutine_kinds := g.(coroutine_kinds); trait_ids := g.(trait_ids); trait_kinds := g.(trait_kinds);
+         auto_traits := g.(auto_traits); foreign_ids := g.(foreign_ids); assoc_lookups := al; atv_ids := av |}
+  | IFn name vks _ _ _ _ _ =>
+      {| adt_ids := g.(adt_ids); adt_kinds := g.(adt_kinds);
+         fn_ids := (name, i) :: g.(fn_ids); fn_kinds := (i, kinds_of vks) :: g.(fn_kinds);
+         closure_ids := g.(closure_ids); closure_kinds := g.(closure_kinds);
+         opaque_ids := g.(opaque_ids); opaque_kinds := g.(opaque_kinds); coroutine_ids := g.(coroutine_ids);
+         coroutine_kinds := g.(coroutine_kinds); trait_ids := g.(trait_ids); trait_kinds := g.(trait_kinds);
+         auto_traits := g.(auto_traits); foreign_ids := g.(foreign_ids); assoc_lookups := al; atv_ids := av |}
+  | IClosure name vks _ _ _ =>
+      {| adt_ids := g.(adt_ids); adt_kinds := g.(adt_kinds); fn_ids := g.(fn_ids); fn_kinds := g.(fn_kinds);
+         closure_ids := (name, i) :: g.(closure_ids); closure_kinds := (i, kinds_of vks) :: g.(closure_kinds);
+         opaque_ids := g.(opaque_ids); opaque_kinds := g.(opaque_kinds); coroutine_ids := g.(coroutine_ids);
+         coroutine_kinds := g.(coroutine_kinds); trait_ids := g.(trait_ids); trait_kinds := g.(trait_kinds);
+         auto_traits := g.(auto_traits); foreign_ids := g.(foreign_ids); assoc_lookups := al; atv_ids := av |}
+  | ITrait name vks auto _ _ =>
+      {| adt_ids := g.(adt_ids); adt_kinds := g.(adt_kinds); fn_ids := g.(fn_ids); fn_kinds := g.(fn_kinds);
+         closure_ids := g.(closure_ids); closure_kinds := g.(closure_kinds);
+         opaque_ids := g.(opaque_ids); opaque_kinds := g.(opaque_kinds); coroutine_ids := g.(coroutine_ids);
+         coroutine_kinds := g.(coroutine_kinds);
+         trait_ids := (name, i) :: g.(trait_ids); trait_kinds := (i, kinds_of vks) :: g.(trait_kinds);
+         auto_traits := (i, auto) :: g.(auto_traits); foreign_ids := g.(foreign_ids); assoc_lookups := al; atv_ids := av |}
+  | IOpaque name vks _ _ _ =>
+      {| adt_ids := g.(adt_ids); adt_kinds := g.(adt_kinds); fn_ids := g.(fn_ids); fn_kinds := g.(fn_kinds);
+         closure_ids := g.(closure_ids); closure_kinds := g.(closure_kinds);
+         opaque_ids := (name, i) :: g.(opaque_ids); opaque_kinds := (i, kinds_of vks) :: g.(opaque_kinds);
+         coroutine_ids := g.(coroutine_ids); coroutine_kinds := g.(coroutine_kinds); trait_ids := g.(trait_ids);
+         trait_kinds := g.(trait_kinds); auto_traits := g.(auto_traits); foreign_ids := g.(foreign_ids);
+         assoc_lookups := al; atv_ids := av |}
+  | ICoroutine name vks _ _ _ _ _ _ =>
+      {| adt_ids := g.(adt_ids); adt_kinds := g.(adt_kinds); fn_ids := g.(fn_ids); fn_kinds := g.(fn_kinds);
+         closure_ids := g.(closure_ids); closure_kinds := g.(closure_kinds);
+         opaque_ids := g.(opaque_ids); opaque_kinds := g.(opaque_kinds);
+         coroutine_ids := (name, i) :: g.(coroutine_ids); coroutine_kinds := (i, kinds_of vks) :: g.(coroutine_kinds);
+         trait_ids := g.(trait_ids); trait_kinds := g.(trait_kinds); auto_traits := g.(auto_traits);
+         foreign_ids := g.(foreign_ids); assoc_lookups := al; atv_ids := av |}
+  | IForeign name =>
+      {| adt_ids := g.(adt_ids); adt_kinds := g.(adt_kinds); fn_ids := g.(fn_ids); fn_kinds := g.(fn_kinds);
+         closure_ids := g.(closure_ids); closure_kinds := g.(closure_kinds);
+         opaque_ids := g.(opaque_ids); opaque_kinds := g.(opaque_kinds); coroutine_ids := g.(coroutine_ids);
+         coroutine_kinds := g.(coroutine_kinds); trait_ids := g.(trait_ids); trait_kinds := g.(trait_kinds);
+         auto_traits := g.(auto_traits); foreign_ids := (name, i) :: g.(foreign_ids); assoc_lookups := al; atv_ids := av |}
+  | IImpl _ _ _ _ _ _ _ | IClause _ => g
+  end.
+
+Fixpoint extract_ids (i : N) (items : list item) (g : genv) : genv :=
+  match items with
+  | [] => g
+  | it :: r => extract_ids (N.succ i) r (extract_ids_one i it g)
+  end.
+
+(** What [lower_goal] reads of the lowered [Program]: the name tables (same maps), the
+    number of binders of every [TraitDatum] and, per [AssociatedTyDatum], its trait id, name
+    and binder kinds (trait parameters incl. Self first, then its own). *)
+Record lowered := {
+  l_env : genv;
+  l_trait_data : list (N * nat);
+  l_assoc_data : list ((N * ident) * list kind);
+}.
+
+Fixpoint summary (i : N) (items : list item) (td : list (N * nat)) (ad : list ((N * ident) * list kind))
+  : list (N * nat) * list ((N * ident) * list kind) :=
+  match items with
+  | [] => (td, ad)
+  | ITrait name vks auto wcs assocs :: r =>
+      summary (N.succ i) r ((i, S (length vks)) :: td)
+              (fold_left (fun acc a => ((i, a.(ad_name)), KTy :: kinds_of vks ++ kinds_of a.(ad_vks)) :: acc) assocs ad)
+  | _ :: r => summary (N.succ i) r td ad
+  end.
+
+Definition lower (c : cfg) (p : program) : out lowered :=
+  g1 <- extract_assoc 0%N p empty_genv ;;
+  let g := extract_ids 0%N p g1 in
+  lower_items c g 0%N p ;;;
+  let s := summary 0%N p [] [] in
+  Ok {| l_env := g; l_trait_data := fst s; l_assoc_data := snd s |}.
+
+(** [lower_goal]: rebuilds the associated-type lookups from the lowered program. *)
+Definition goal_env (l : lowered) : out genv :=
+  al <- mapM (fun d : (N * ident) * list kind =>
+                match get N.eqb (fst (fst d)) l.(l_trait_data) with
+                | None => Panic S_goal_trait_data
+                | Some n => if Nat.leb n (length (snd d)) then Ok (fst d, skipn n (snd d)) else Panic S_goal_binders_slice
+                end) l.(l_assoc_data) ;;
+  Ok (set_assoc l.(l_env) al l.(l_env).(atv_ids)).
+
+Definition lower_goal_top (c : cfg) (l : lowered) (gl : goal) : out unit :=
+  g <- goal_env l ;; lower_goal c g [] gl.
+
+(** The observable class of an outcome (what the correspondence compares). *)
+Inductive cls := COk | CErr (e : err) | CPanic (s : site).
+Definition cls_of {A} (o : out A) : cls := match o with Ok _ => COk | Err e => CErr e | Panic s => CPanic s end.
+
+Definition run (c : cfg) (p : program) (goals : list goal) : cls * list cls :=
+  match lower c p with
+  | Ok l => (COk, map (fun gl => cls_of (lower_goal_top c l gl)) goals)
+  | o => (cls_of o, [])
+  end.
